@@ -309,8 +309,10 @@ def single_edits(schema, rng, per_rule_cap=6):
     for pi, t in enumerate(schema.types):
         if t.name.lower() in hdr_names or t.name in ("U8", "U16", "U32", "U64"):
             continue
-        add("keyword-name", "public-" + t.kind, True, "pubtype", pi, lambda t_, s, n=rng.choice(KEYWORDS): setattr(t_, "name", n))
-        add("invalid-name", "public-" + t.kind, True, "pubtype", pi, lambda t_, s, n=rng.choice(BAD_NAMES): setattr(t_, "name", n))
+        add("keyword-name", "public-" + t.kind, True, "pubtype", pi, lambda t_, s, n=rng.choice(KEYWORDS): rename_type(s, t_, n))
+        add("invalid-name", "public-" + t.kind, True, "pubtype", pi, lambda t_, s, n=rng.choice(BAD_NAMES[:4]): rename_type(s, t_, n))
+        add("keyword-like-name", "public-" + t.kind, False, "pubtype", pi,
+            lambda t_, s, n=rng.choice(NOT_KEYWORDS): rename_type(s, t_, n + "_" + t_.name))
     if len(schema.types) >= 2:
         add("duplicate-name", "public-type-case-insensitive", True, "pubtype", 0,
             lambda t_, s: s.types.append(S.Type(s.types[-1].name.swapcase() if s.types[-1].name.swapcase() != s.types[-1].name else s.types[-1].name, "uint8")))
@@ -345,6 +347,39 @@ def single_edits(schema, rng, per_rule_cap=6):
             lst = rng.sample(lst, per_rule_cap)
         out += lst
     return out
+
+
+def rename_type(s, t, new):
+    """Rename a public type and every reference to it, so that the only rule broken is the name rule."""
+    old = t.name
+    t.name = new
+
+    def same(x):
+        return isinstance(x, str) and x.lower() == old.lower()
+    for c, _ in composites_of(s):
+        for e in c.elements:
+            if e.kind == "ref" and same(e.type):
+                e.type = new
+    for e in all_enums(s) + all_sets(s):
+        if same(e.encoding):
+            e.encoding = new
+    for _, _, lv in levels_of(s):
+        for f in lv.fields:
+            if same(f.type):
+                f.type = new
+            if f.value_ref and same(f.value_ref.split(".")[0]):
+                f.value_ref = new + "." + f.value_ref.split(".", 1)[1]
+        for g in lv.groups:
+            if same(g.dimension_type):
+                g.dimension_type = new
+        for d in lv.data:
+            if same(d.type):
+                d.type = new
+    for tt in all_types(s):
+        if tt.value_ref and same(tt.value_ref.split(".")[0]):
+            tt.value_ref = new + "." + tt.value_ref.split(".", 1)[1]
+    if same(s.header_type):
+        s.header_type = new
 
 
 def _dup_member(l):
